@@ -26,7 +26,7 @@ def print_layout(w, lay, rng, indent=0, mark=None, comma=False, key=None):
             a = " // {%s}%s" % (body, (" - " + note) if note else "")
     else:
         a = ""
-    cm = (" # " + lay["comment"]) if (lay["comment"] and lay["annotation"] != "inline-blocked") else ""
+    cm = (" #" + (" " + lay["comment"] if lay["comment"] else "")) if (lay["comment"] is not None and lay["annotation"] != "inline-blocked") else ""
     c = "," if comma else ""
     if w.kind in "SIFBN":
         return [head + w.tok + c + a + (cm if not a or lay["annotation"] == "multiline" else "")]
@@ -51,7 +51,7 @@ def print_layout(w, lay, rng, indent=0, mark=None, comma=False, key=None):
 
 
 def rand_layout(rng):
-    return {"nl": rng.choice(["\n", "\r\n", "\r"]), "indent": rng.choice(["", " ", "  ", "\t", "    "]), "comment": rng.choice([None, None, "user comment", "x"]),
+    return {"nl": rng.choice(["\n", "\r\n", "\r"]), "indent": rng.choice(["", " ", "  ", "\t", "    "]), "comment": rng.choice([None, None, "user comment", "x", ""]),
             "block_comment": rng.choice([None, None, "block\ncomment", "b"]), "annotation": rng.choice(["inline", "inline", "multiline"]),
             "quoted_names": rng.random() < 0.3, "trailing_comma": rng.random() < 0.3, "rule_order": rng.choice(["written", "reversed", "sorted"]),
             "note": rng.choice([None, None, "a note"])}
@@ -169,6 +169,18 @@ def run(ctx):
             if what and len(ctx.violations) < 40:
                 ctx.report("%s; base spelling %r, re-spelled %r (layout %s)" % (what, res[0][1][:120], text[:160], {k: v for k, v in lay.items() if v != BASE[k]}), "c13:" + text,
                            {"base": res[0][1], "respelled": text, "layout": lay, "base_results": base[:2], "respelled_results": r[:2]}, case={"schema": text})
+    # corpus: pairs (base spelling, re-spelled) that once differed
+    import os
+    cf = os.path.join(vc.ROOT, "corpus", "C13", "fixed-empty-comment.json")
+    if os.path.exists(cf):
+        pairs = json.load(open(cf))
+        co = vc.impl(["schema"], [json.dumps({"schema": t, "ops": [["check"], ["ast"]]}) for pr in pairs for t in (pr["base"], pr["respelled"])])
+        for k, pr in enumerate(pairs):
+            a, b = json.loads(co[2 * k]), json.loads(co[2 * k + 1])
+            ctx.evaluations += 1
+            same_ast = a[0] == "ok" and b[0] == "ok" and json.dumps(canon_rules(strip_comments(json.loads(a[1][2:]))), sort_keys=True) == json.dumps(canon_rules(strip_comments(json.loads(b[1][2:]))), sort_keys=True)
+            if not same_ast and len(ctx.violations) < 40:
+                ctx.report("corpus case: re-spelling changes Check/AST: %r -> %s, %r -> %s" % (pr["base"], a[0], pr["respelled"], b[0]), "c13corpus:" + pr["respelled"], dict(pr, results=[a[0], b[0]]), case={"schema": pr["respelled"]})
     # rule order inside the rule-sets of an "or" rule (a second loader handles them)
     import itertools
     sets = {"A": [("type", '"integer"'), ("min", "0"), ("exclusiveMinimum", "true")], "B": [("type", '"string"'), ("minLength", "1"), ("maxLength", "9")],
